@@ -252,8 +252,6 @@ def base_cases(run):
                 for we in range(ws + 1, G + 1):
                     for wst in "+-":
                         yield f"chunkdown {enc_loc(k, st, l)} {ws} {we} {wst}"
-    for ws, we, wst in ((0, 3, "+"), (2, 2, "-"), (1, 6, "-")):      # the empty location
-        yield f"chunkdown E {ws} {we} {wst}"
     run.exhaustive = True
     # ---- random hierarchies
     n = 600 if run.tier == "quick" else 20000
